@@ -1456,7 +1456,10 @@ class Converter:
     def _translate_nested_function_def(self, fn: ast.FunctionDef) -> None:
         """Translate a nested function definition."""
         self._enter_scope(fn.name, fn)
+        # The nested function's signature sets self.returntype: restore the enclosing function's
+        outer_returntype = self.returntype
         self._translate_function_def_common(fn)
+        self.returntype = outer_returntype
         function_ir = self._exit_scope()
         outer_scope_vars = self.analyzer.outer_scope_variables(fn)
         function_ir.outer_scope_variables = [
